@@ -1404,7 +1404,248 @@ func zzCheckMD(t *testing.T, what string, got metadata.MD, want map[string][]byt
 }
 `
 
-var propertyHarnessScenario = map[string]string{"C02": "C02", "C14": "C14", "C03": "C03", "C12": "C12"}
+// The in-process half: aliasing between caller and handler (C06), single-response
+// enforcement (C08) and the four cloner adapters (C18).
+const propertyHarnessInproc = `package inprocgrpc_test
+
+import (
+	"context"
+	"io"
+	"testing"
+
+	"github.com/jhump/protoreflect/desc"
+	"github.com/jhump/protoreflect/dynamic"
+	"google.golang.org/grpc/encoding"
+	grpcproto "google.golang.org/grpc/encoding/proto"
+	"google.golang.org/grpc/status"
+	"google.golang.org/protobuf/proto"
+
+	"github.com/fullstorydev/grpchan/grpchantesting"
+	"github.com/fullstorydev/grpchan/inprocgrpc"
+)
+
+type zzSvc struct {
+	grpchantesting.UnimplementedTestServiceServer
+	cached    *grpchantesting.Message
+	seen      []*grpchantesting.Message
+	responses int
+	mutated   chan struct{}
+}
+
+func (s *zzSvc) Unary(ctx context.Context, req *grpchantesting.Message) (*grpchantesting.Message, error) {
+	s.seen = append(s.seen, req)
+	if s.responses == 0 {
+		return nil, nil
+	}
+	return s.cached, nil
+}
+
+func (s *zzSvc) ServerStream(req *grpchantesting.Message, ss grpchantesting.TestService_ServerStreamServer) error {
+	s.seen = append(s.seen, req)
+	if s.mutated != nil {
+		// send a message, then change it once Send has returned
+		m := proto.Clone(s.cached).(*grpchantesting.Message)
+		if err := ss.Send(m); err != nil {
+			return err
+		}
+		m.Payload[0] = '!'
+		m.Headers["k"][0] = '!'
+		close(s.mutated)
+		return ss.Send(s.cached)
+	}
+	for i := 0; i < 2; i++ {
+		if err := ss.Send(s.cached); err != nil {
+			return err
+		}
+	}
+	return nil
+}
+
+func (s *zzSvc) ClientStream(cs grpchantesting.TestService_ClientStreamServer) error {
+	for {
+		m, err := cs.Recv()
+		if err == io.EOF {
+			break
+		}
+		if err != nil {
+			return err
+		}
+		s.seen = append(s.seen, m)
+	}
+	for i := 0; i < s.responses; i++ {
+		if err := cs.SendMsg(s.cached); err != nil {
+			return err
+		}
+	}
+	return nil
+}
+
+func zzMsg(p string) *grpchantesting.Message {
+	return &grpchantesting.Message{Payload: []byte(p), Count: 7, Headers: map[string][]byte{"k": []byte(p)}}
+}
+
+// Bounded search on the real in-process channel and cloner adapters.
+func TestZZGovcReplay(t *testing.T) {
+	scenario := %q
+	cloners := map[string]inprocgrpc.Cloner{
+		"default":    nil,
+		"codec":      inprocgrpc.CodecCloner(encoding.GetCodec(grpcproto.Name)),
+		"clone-func": inprocgrpc.CloneFunc(func(in interface{}) (interface{}, error) { return proto.Clone(in.(proto.Message)), nil }),
+		"copy-func": inprocgrpc.CopyFunc(func(out, in interface{}) error {
+			proto.Reset(out.(proto.Message))
+			proto.Merge(out.(proto.Message), in.(proto.Message))
+			return nil
+		}),
+	}
+	for cname, cl := range cloners {
+		switch scenario {
+		case "C18":
+			if cl == nil {
+				cl = inprocgrpc.ProtoCloner{}
+			}
+			src := zzMsg("source")
+			cp, err := cl.Clone(src)
+			if err != nil || !proto.Equal(cp.(proto.Message), src) || cp == interface{}(src) {
+				t.Errorf("GOVC-REPLAY: VIOLATED %s cloner: Clone(src) = %v, %v; want an equal, distinct copy", cname, cp, err)
+				continue
+			}
+			cp.(*grpchantesting.Message).Payload[0] = 'X'
+			cp.(*grpchantesting.Message).Headers["k"][0] = 'X'
+			if !proto.Equal(src, zzMsg("source")) {
+				t.Errorf("GOVC-REPLAY: VIOLATED %s cloner: mutating the clone changed the source: %v", cname, src)
+			}
+			dst := &grpchantesting.Message{Payload: []byte("old"), Count: 99, Trailers: map[string][]byte{"stale": []byte("x")}, Code: 5}
+			if err := cl.Copy(dst, src); err != nil || !proto.Equal(dst, src) {
+				t.Errorf("GOVC-REPLAY: VIOLATED %s cloner: Copy into a populated destination gives %v (err %v), want exactly %v", cname, dst, err, src)
+			}
+			empty := &grpchantesting.Message{}
+			dst2 := zzMsg("stale")
+			if err := cl.Copy(dst2, empty); err != nil || !proto.Equal(dst2, empty) {
+				t.Errorf("GOVC-REPLAY: VIOLATED %s cloner: Copy of an empty message into a populated destination gives %v (err %v), want an empty message", cname, dst2, err)
+			}
+			dst.Payload[0] = 'Y'
+			if !proto.Equal(src, zzMsg("source")) {
+				t.Errorf("GOVC-REPLAY: VIOLATED %s cloner: mutating the destination of Copy changed the source", cname)
+			}
+			if cname == "default" {
+				if md, err := desc.LoadMessageDescriptorForMessage(&grpchantesting.Message{}); err == nil {
+					dm := dynamic.NewMessage(md)
+					if err := cl.Copy(dm, src); err != nil {
+						t.Errorf("GOVC-REPLAY: VIOLATED default cloner: generated -> dynamic copy failed: %v", err)
+					}
+					back := &grpchantesting.Message{}
+					if err := cl.Copy(back, dm); err != nil || !proto.Equal(back, src) {
+						t.Errorf("GOVC-REPLAY: VIOLATED default cloner: dynamic -> generated copy gives %v (err %v)", back, err)
+					}
+				}
+				x := 5
+				if _, err := cl.Clone(&x); err == nil {
+					t.Errorf("GOVC-REPLAY: VIOLATED default cloner: a pointer to a non-message was cloned without error")
+				}
+				if err := cl.Copy(&x, src); err == nil {
+					t.Errorf("GOVC-REPLAY: VIOLATED default cloner: a message was copied into a pointer to a non-message without error")
+				}
+			}
+		case "C06", "C08":
+			svc := &zzSvc{cached: zzMsg("cached response"), responses: 1}
+			ch := &inprocgrpc.Channel{}
+			if cl != nil {
+				ch.WithCloner(cl)
+			}
+			grpchantesting.RegisterTestServiceServer(ch, svc)
+			cli := grpchantesting.NewTestServiceClient(ch)
+			if scenario == "C06" {
+				req := zzMsg("request")
+				resp, err := cli.Unary(context.Background(), req)
+				if err != nil {
+					t.Errorf("GOVC-REPLAY: VIOLATED %s: unary failed: %v", cname, err)
+					continue
+				}
+				req.Payload[0] = 'X'
+				req.Headers["k"][0] = 'X'
+				if got := svc.seen[len(svc.seen)-1]; !proto.Equal(got, zzMsg("request")) || got == req {
+					t.Errorf("GOVC-REPLAY: VIOLATED %s: the caller changed its request after the unary call returned and the handler's copy changed too: %v", cname, got)
+				}
+				resp.Payload[0] = 'Z'
+				resp.Headers["k"][0] = 'Z'
+				if !proto.Equal(svc.cached, zzMsg("cached response")) || resp == svc.cached {
+					t.Errorf("GOVC-REPLAY: VIOLATED %s: the caller changed the unary response and the handler's own message changed too: %v", cname, svc.cached)
+				}
+				reused := zzMsg("stale destination")
+				reused.Trailers = map[string][]byte{"stale": []byte("x")}
+				if err := ch.Invoke(context.Background(), "/grpchantesting.TestService/Unary", zzMsg("r"), reused); err != nil || !proto.Equal(reused, zzMsg("cached response")) {
+					t.Errorf("GOVC-REPLAY: VIOLATED %s: a reused response message holds %v after the call (err %v), want exactly the handler's response", cname, reused, err)
+				}
+				ss, err := cli.ServerStream(context.Background(), zzMsg("request"))
+				if err == nil {
+					m1, e1 := ss.Recv()
+					m2, e2 := ss.Recv()
+					if e1 != nil || e2 != nil || m1 == m2 || m1 == svc.cached {
+						t.Errorf("GOVC-REPLAY: VIOLATED %s: server stream delivered shared messages (%p %p handler's %p; errors %v %v)", cname, m1, m2, svc.cached, e1, e2)
+					} else {
+						m1.Headers["k"][0] = 'Q'
+						if !proto.Equal(m2, zzMsg("cached response")) || !proto.Equal(svc.cached, zzMsg("cached response")) {
+							t.Errorf("GOVC-REPLAY: VIOLATED %s: changing one received message changed another one or the handler's", cname)
+						}
+					}
+				}
+				svc.mutated = make(chan struct{})
+				if ms, err := cli.ServerStream(context.Background(), zzMsg("request")); err == nil {
+					<-svc.mutated
+					if m1, err := ms.Recv(); err != nil || !proto.Equal(m1, zzMsg("cached response")) {
+						t.Errorf("GOVC-REPLAY: VIOLATED %s: the handler changed a message after its Send had returned and the caller received the changed one: %v (err %v)", cname, m1, err)
+					}
+					ms.Recv()
+					ms.Recv()
+				}
+				svc.mutated = nil
+				cs, err := cli.ClientStream(context.Background())
+				if err == nil {
+					m := zzMsg("first")
+					cs.Send(m)
+					m.Payload[0] = 'X'
+					cs.Send(m)
+					cs.CloseAndRecv()
+					n := len(svc.seen)
+					if n < 2 || string(svc.seen[n-2].Payload) != "first" || string(svc.seen[n-1].Payload) != "Xirst" {
+						t.Errorf("GOVC-REPLAY: VIOLATED %s: a message changed and re-sent after Send returned reached the handler as %q, %q", cname, svc.seen[n-2].GetPayload(), svc.seen[n-1].GetPayload())
+					}
+				}
+			} else {
+				for _, n := range []int{0, 2, 3} {
+					svc.responses = n
+					if n == 0 {
+						if _, err := cli.Unary(context.Background(), zzMsg("r")); err == nil {
+							t.Errorf("GOVC-REPLAY: VIOLATED %s: a unary handler that returned neither response nor error was reported as success", cname)
+						} else if _, ok := status.FromError(err); !ok {
+							t.Errorf("GOVC-REPLAY: VIOLATED %s: a unary handler that returned nothing gives the non-status error %v", cname, err)
+						}
+					}
+					cs, err := cli.ClientStream(context.Background())
+					if err != nil {
+						continue
+					}
+					cs.Send(zzMsg("r"))
+					if _, err := cs.CloseAndRecv(); err == nil {
+						t.Errorf("GOVC-REPLAY: VIOLATED %s: a client-streaming handler that sent %d responses was reported as success", cname, n)
+					}
+				}
+				svc.responses = 1
+				cs, err := cli.ClientStream(context.Background())
+				if err == nil {
+					cs.Send(zzMsg("r"))
+					if m, err := cs.CloseAndRecv(); err != nil || !proto.Equal(m, zzMsg("cached response")) {
+						t.Errorf("GOVC-REPLAY: VIOLATED %s: a client-streaming handler that sent exactly one response gives %v, %v", cname, m, err)
+					}
+				}
+			}
+		}
+	}
+}
+
+`
+
+var propertyHarnessScenario = map[string]string{"C02": "C02", "C14": "C14", "C03": "C03", "C12": "C12", "C06": "C06", "C08": "C08", "C18": "C18"}
 
 func (cc *checkCtx) propertyFallback(prop string) map[string]interface{} {
 	sc, ok := propertyHarnessScenario[prop]
@@ -1422,7 +1663,13 @@ func (cc *checkCtx) propertyFallback(prop string) map[string]interface{} {
 	cc.mu.Unlock()
 	res := map[string]interface{}{"attempted": false, "kind": "property-level bounded search on the real API (not derived from the solver's model)"}
 	res["inputs"] = map[string]interface{}{"scenario": sc, "scope": "HTTP and in-process channel, grpchantesting.TestServer: every code 1..18 with a detail on unary/server-stream/client-stream; request metadata with repeated keys and arbitrary -bin bytes, response headers/trailers through Header()/Trailer() and duplicated call options, trailers of a failed call; registered and fourteen unregistered or malformed method names"}
-	res = runDriver(cc, modulePath+"/httpgrpc", strings.Replace(propertyHarness, "%q", fmt.Sprintf("%q", sc), 1), res)
+	switch sc {
+	case "C06", "C08", "C18":
+		res["inputs"] = map[string]interface{}{"scenario": sc, "scope": "in-process channel with each of the four cloner configurations, a service whose handlers keep what they receive and return a cached message: mutation after return on either side, reused destination, messages re-sent after a change; handlers producing 0, 2, 3 responses for single-response methods; Clone/Copy of each adapter incl. populated and empty sources and destinations, dynamic <-> generated, non-message pointers"}
+		res = runDriver(cc, modulePath+"/inprocgrpc", strings.Replace(propertyHarnessInproc, "%q", fmt.Sprintf("%q", sc), 1), res)
+	default:
+		res = runDriver(cc, modulePath+"/httpgrpc", strings.Replace(propertyHarness, "%q", fmt.Sprintf("%q", sc), 1), res)
+	}
 	cc.mu.Lock()
 	cc.harnessDone[prop] = res
 	cc.mu.Unlock()
